@@ -87,13 +87,13 @@ def inside_corner_points(drv, rng, n):
             continue
         i = rng.randrange(len(ring))
         a, b = ring[i], ring[(i + 1) % len(ring)]
-        t = rng.choice([0.0, 0.5, rng.random()])
+        t = rng.choice([0.0, 0.0, 0.5, rng.random()])      # corners twice as often: that is where the neighbour search is stretched furthest
         q = (a[0] + t * (b[0] - a[0]), a[1] + t * (b[1] - a[1]))
         # unify longitude branch with the centre
         cl = cen[0]
         while cl - q[0] > 180: cl -= 360
         while cl - q[0] < -180: cl += 360
-        f = rng.choice([1e-2, 1e-3, 1e-4, 0.0, 0.0])      # 0.0: a published corner itself, given back to the library as is
+        f = rng.choice([1e-2, 3e-3, 1e-3, 1e-3, 1e-4, 0.0, 0.0])      # 0.0: a published corner itself, given back to the library as is
         if f == 0.0:
             # only true corners: a point on the lon/lat chord between two corners is not on the (curved) edge but ~1e-6 widths off it, which is
             # inside the oracle's own discretisation error (false alarm seen once in the thorough tier: 1.38e-6 widths at resolution 9)
